@@ -507,6 +507,40 @@ def rule_balance(ctx):
         if any_entry:
             nfun += 1
             r.functions.add(name)
+    # the bulk iterator's shares are a number, not objects: a yield is balanced against `remain -= 1` on every path, so the
+    # ledger cannot see a yield made with no share left.  Its `next` yields only on a path that knows remain >= 1, and
+    # answers None only on a path that knows remain == 0 (the unyielded shares are released by Drop / abort)
+    NX = "<strong::NewRcIter<T> as std::iter::Iterator>::next"
+    if NX in prog.bodies:
+        nb = prog.body(NX)
+        r.functions.add(NX)
+        for p in own_paths(ctx, NX):
+            if p.exit[0] != "return":
+                continue
+            ret = strip(p.ret)
+            some = isinstance(ret, tuple) and ret[0] == "agg" and ret[2] == "Some"
+            none = isinstance(ret, tuple) and ret[0] == "agg" and ret[2] == "None"
+            knows_pos = knows_zero = False
+            for e in p.events:
+                if e.kind != "cond" or not isinstance(e.term, tuple) or e.term[0] != "bin" or "remain" not in show(e.term[2]):
+                    continue
+                op, c, v = e.term[1], const_of(e.term[3]), e.value
+                if c is None or v not in (0, 1):
+                    continue
+                if (op, c, v) in (("Eq", 0, 0), ("Ne", 0, 1), ("Gt", 0, 1), ("Ge", 1, 1), ("Lt", 1, 0), ("Le", 0, 0)):
+                    knows_pos = True
+                if (op, c, v) in (("Eq", 0, 1), ("Ne", 0, 0), ("Gt", 0, 0), ("Ge", 1, 0), ("Lt", 1, 1), ("Le", 0, 1)):
+                    knows_zero = True
+            if some:
+                r.instance("NewRcIter::next yields only when a share remains", knows_pos)
+                if not knows_pos:
+                    r.violate(NX, "yield-without-share", "the bulk iterator yields an Rc on a path that does not know "
+                              "`remain >= 1`: an owner without a counted share (premature release)", nb.loc(0))
+            elif none:
+                r.instance("NewRcIter::next ends only when no share remains", knows_zero)
+                if not knows_zero:
+                    r.violate(NX, "ends-early", "the bulk iterator answers None although shares remain: fewer owners are "
+                              "handed out than advertised", nb.loc(0))
     # counted by hand on the pinned tree (+ the five fixes) and equal to what the reader finds
     # role-based floors (forget(x) and x.into_raw() are interchangeable ways of giving up an owner)
     # (today's counts are 14/14/3/7/4/3/4; the floors leave room for siblings merged into a shared helper - a lost
